@@ -522,16 +522,16 @@ func (c *Compiler) applyUsesToNode(mod, nod, use parse.Node, parentStatus schema
 
 	refinedNodes := []parse.Node{}
 	for _, kid := range group.Children() {
-		newKid := kid.Clone(kidmod)
-		inheritCommonProperties(use, newKid, false)
-
 		// Deal with 'double' forward reference of grouping where first
 		// forward referenced grouping contains a second forward reference
 		// that is not at top level of grouping (that scenario is dealt with
-		// in expandGroupings())
-		if err := c.expandGroupings(gmod, newKid, schema.Current); err != nil {
-			c.error(newKid, err)
+		// in expandGroupings()).  It is expanded in the definition, before
+		// cloning, so that the clone moves every node to the using module.
+		if err := c.expandGroupings(gmod, kid, schema.Current); err != nil {
+			c.error(kid, err)
 		}
+		newKid := kid.Clone(kidmod)
+		inheritCommonProperties(use, newKid, false)
 		refinedNodes = append(refinedNodes, newKid)
 	}
 
